@@ -53,6 +53,7 @@ ENTRIES = [
     ("colvar.corrFuncLength", CORR, ["colvar"], "corrFuncLength", 3),
     ("colvar.corrFuncOffset", CORR, ["colvar"], "corrFuncOffset", 3),
     ("colvaroff1.corrFuncLength", CORR1, ["colvar"], "corrFuncLength", 3),
+    ("colvarrof0.corrFuncStride", CORR, ["colvar"], "corrFuncStride", 0),
     ("coordnum.pairListFrequency", COORD, ["colvar", "coordnum"], "pairListFrequency", 3),
     ("bias.timeStepFactor", CVTSF, ["harmonic"], "timeStepFactor", 3),
     ("bias.outputFreq", HIST, ["histogram"], "outputFreq", 3),
@@ -127,6 +128,7 @@ MODEL = {
     "colvar.corrFuncLength": ("colvar", dict(_R, corr="on", cflen="2", cfstride="1", cfoff="0"), "cflen"),
     "colvar.corrFuncOffset": ("colvar", dict(_R, corr="on", cflen="2", cfstride="1", cfoff="0"), "cfoff"),
     "colvaroff1.corrFuncLength": ("colvar", dict(_R, corr="on", cflen="2", cfstride="1", cfoff="1"), "cflen"),
+    "colvarrof0.corrFuncStride": ("colvar", dict(rof="0", corr="on", cflen="2", cfstride="1", cfoff="0"), "cfstride"),
     "coordnum.pairListFrequency": ("coordnum", dict(tol="on", freq="2"), "freq"),
     "bias.timeStepFactor": ("bias", dict(_R, btsf="2"), "btsf"),
     "bias.outputFreq": ("bias", dict(_R, outfreq="2"), "outfreq"),
